@@ -722,6 +722,87 @@ after (fresh thread): {:?}", before.map(|d| hex(&d)), after.map(|d| hex(&d)), af
 			s.rep.violate("C15:processes", "fresh processes given the same keys and parameters produce different to-be-signed bytes", diff);
 		}
 	}
+	// (m) one issuer `Certificate` object used with two issuer keys (a CA re-keyed under the same
+	// name), in either order, its key identifier asked for in between, as a clone: what is issued
+	// with (object, key) is what a fresh object issues with that key — the object has no memory
+	#[cfg(not(feature = "nocrypto"))]
+	{
+		let k1 = s.ctx.key("ed25519");
+		let k2 = Arc::new(KeyPair::generate_for(&PKCS_ED25519).unwrap());
+		let leaf_key = s.ctx.key("ecdsaP256");
+		for kid in [Kid::Sha256, Kid::Sha384, Kid::Sha512] {
+			let mut pi = PCert::empty();
+			pi.serial = Some(vec![0x51]);
+			pi.dn = Dn(vec![(DnT::Cn, DnV::Utf8("re-keyed ca".into()))]);
+			pi.ca = Ca::Ca(None);
+			pi.kid = kid.clone();
+			let mut pl = PCert::empty();
+			pl.serial = Some(vec![0x52]);
+			pl.dn = Dn(vec![(DnT::Cn, DnV::Utf8("leaf".into()))]);
+			pl.aki = true;
+			let fresh = |k: &KeyPair| pi.real().unwrap().self_signed(k).unwrap();
+			let tbs_of = |obj: &Certificate, ik: &KeyPair| pl.real().unwrap().signed_by(&*leaf_key, obj, ik).ok().and_then(|c| crate::der::split_signed(c.der()).map(|x| x.0));
+			let want1 = tbs_of(&fresh(&k1), &k1);
+			let want2 = tbs_of(&fresh(&k1), &k2);
+			let mut histories: Vec<(&str, Vec<Option<Vec<u8>>>, Vec<Option<Vec<u8>>>)> = Vec::new();
+			{
+				let o = fresh(&k1);
+				histories.push(("own key, then the other key", vec![tbs_of(&o, &k1), tbs_of(&o, &k2)], vec![want1.clone(), want2.clone()]));
+			}
+			{
+				let o = fresh(&k1);
+				histories.push(("the other key, then own key", vec![tbs_of(&o, &k2), tbs_of(&o, &k1)], vec![want2.clone(), want1.clone()]));
+			}
+			{
+				let o = fresh(&k1);
+				let _ = o.key_identifier();
+				histories.push(("key_identifier() first, then the other key", vec![tbs_of(&o, &k2)], vec![want2.clone()]));
+			}
+			{
+				let o = fresh(&k1);
+				let first = tbs_of(&o, &k1);
+				let c = o.clone();
+				histories.push(("own key, then a clone with the other key", vec![first, tbs_of(&c, &k2), tbs_of(&o, &k2)], vec![want1.clone(), want2.clone(), want2.clone()]));
+			}
+			for (what, got, want) in histories {
+				s.rep.case(&format!("issuer object history: {} ({:?})", what, kid), true);
+				s.rep.evaluations += got.len() as u64;
+				if got != want {
+					s.rep.violate("C15:issuer-object-history", "what an issuer Certificate object issues depends on what it was used for before", format!("issuer key-identifier method {:?}; history: {}\nissued (to-be-signed bytes): {:?}\nissued by a fresh object with the same key: {:?}", kid, what, got.iter().map(|t| t.as_ref().map(|b| hex(b))).collect::<Vec<_>>(), want.iter().map(|t| t.as_ref().map(|b| hex(b))).collect::<Vec<_>>()));
+				}
+			}
+		}
+		s.rep.exhaustive.push("one issuer Certificate object x two issuer keys x 3 hashing methods: four usage histories (either order, key_identifier() in between, a clone) against fresh objects".into());
+	}
+	// (n) the command-line tool run again into a directory it has already written to (longer keys
+	// first): what is in each file afterwards is what a run into an empty directory leaves there
+	// in kind — exactly one PEM text, nothing of the earlier run
+	#[cfg(not(feature = "nocrypto"))]
+	if let Ok(cli) = std::env::var("VERIF_CLI") {
+		if std::path::Path::new(&cli).exists() {
+			for (ri, seq) in [vec!["--ecdsa-p384", "--ed25519"], vec!["--ecdsa-p384", "--ecdsa-p256", "--ed25519"], vec!["--ed25519", "--ed25519"]].iter().enumerate() {
+				let dir = format!("/verif/.cache/c15_cli_{}_{}", std::process::id(), ri);
+				let _ = std::fs::remove_dir_all(&dir);
+				let mut ok = true;
+				for flag in seq {
+					ok &= std::process::Command::new(&cli).args(["-o", &dir, flag, "--san", "rerun.example.com"]).env("RUST_BACKTRACE", "0").output().map(|o| o.status.success()).unwrap_or(false);
+				}
+				s.rep.case(&format!("command-line tool reruns {:?}", seq), true);
+				if ok {
+					for file in ["cert.pem", "cert.key.pem", "root-ca.pem", "root-ca.key.pem"] {
+						let text = std::fs::read(format!("{}/{}", dir, file)).unwrap_or_default();
+						let resp = s.drv.ask(&format!("spec-pem {}", hex(&text)));
+						s.rep.evaluations += 1;
+						if !resp.starts_with("(ok ") {
+							s.rep.violate("C15:cli-rerun", "after a second run into the same directory a file is not what a run into an empty directory leaves there (not exactly one PEM text)", format!("runs {:?}; file {} has {} octets; strict decoder: {}", seq, file, text.len(), resp));
+						}
+					}
+				}
+				let _ = std::fs::remove_dir_all(&dir);
+			}
+			s.rep.exhaustive.push("the command-line tool run two and three times into one directory (longer keys first): every file exactly one PEM text afterwards".into());
+		}
+	}
 	let req = s.drv.requests;
 	s.rep.add("driver_requests", req);
 	s.rep
